@@ -740,6 +740,10 @@ pub(crate) fn run(
                             _ => break 'fail,
                         }
                     } else {
+                        // The buffer is shared by all delegates of the program: forget what an
+                        // earlier one left in it, because the automata engine does not write the
+                        // slots of a group that it knows can never match, e.g. `(a){0}`.
+                        inner_slots.clear();
                         inner_slots.resize((end_group - start_group + 1) * 2, None);
                         if inner.search_slots(&input, &mut inner_slots).is_some() {
                             for i in 0..(end_group - start_group) {
